@@ -232,6 +232,17 @@ def run(ctx):
         C.check(ok, 'C05-PAIR-origins', '%s|referrer-rewrite|needs:remove-before+insert-after' % fn,
                 'referrers are rewritten without re-keying their list in reference_origins (remove old key before, insert new key after)', b.where(w[0]) if w else '',
                 sample={'fn': fn, 'event': 'rewrite of referrer text', 'partner': 'reference_origins.remove(old) ... insert(new)'})
+    # the list taken out under the old key is MERGED into whatever the new key already holds (references that were dangling under the new
+    # path until now): re-filing it with or_insert / insert alone drops one of the two lists
+    sn = P.get('ElementRaw::set_item_name')
+    snb = [sn] + list(P.closures_of(sn))
+    rem_sn = ro_positions(sn, {'remove'})
+    merge = [(x, pos) for x in snb for pos, t in x.iter_calls()
+             if call_matches(t, r'Extend<[^>]*>>?::extend$|Vec<[^>]*>::(append|push|extend_from_slice)$|add_reference_origin$')]
+    C.check(bool(rem_sn) and bool(merge), 'C05-PAIR-origins', 'ElementRaw::set_item_name|moved-referrers-are-merged-into-the-new-key',
+            'set_item_name takes the referrer list out under the old path but nothing appends it to the list of the new path (no extend / append / push / add_reference_origin): when a reference already carries the new path, one of the two lists is dropped and those references are in no referrer list',
+            sn.where(rem_sn[0]) if rem_sn else '%s:%d' % (sn.file, sn.line),
+            sample={'fn': 'ElementRaw::set_item_name', 'obligation': 'after reference_origins.remove(old) an appending call files the list under the new key', 'appending_calls': len(merge)})
     mf = P.get('ElementRaw::move_element_full')
     w = calls(mf, r'ElementRaw>::set_character_data')
     ok = len(w) == 1 and after_all_ok(mf, w[0], ro_positions(mf, {'add'}))
